@@ -1,6 +1,10 @@
 package core
 
-import "sync"
+import (
+	"context"
+	"runtime/trace"
+	"sync"
+)
 
 // C12 (cluster mode) — MaxJobsSemaphore: the number of metadata objects
 // holding the semaphore never exceeds Limit; Acquire true => member; false
@@ -148,4 +152,100 @@ func H_C12_jobsOther(op int) {
 		verifAssert(!ok, "after Clear nothing is admitted")
 	}
 	j.inv("jobsOther")
+}
+
+// ---- RemoteJobManager.execJob / endJob: one slot per submitted job ----
+
+var (
+	c12Sent   []*Metadata
+	c12Ended  []*Metadata
+	c12RemMgr *RemoteJobManager
+)
+
+//verif:stub (*github.com/martian-lang/martian/martian/core.RemoteJobManager).sendJob
+func c12SendJob(self *RemoteJobManager, shellCmd string, argv []string, envs map[string]string,
+	metadata *Metadata, resRequest *JobResources, fqname string, shellName string, ctx context.Context) {
+	for _, m := range c12Sent {
+		verifAssert(m != metadata, "C12/C03: a job is sent to the cluster at most once")
+	}
+	c12Sent = append(c12Sent, metadata)
+	if self.maxJobs > 0 {
+		active := 0
+		for _, m := range c12Sent {
+			ended := false
+			for _, e := range c12Ended {
+				if e == m {
+					ended = true
+				}
+			}
+			if !ended {
+				active++
+			}
+		}
+		verifAssert(active <= self.maxJobs, "C12: the number of simultaneously submitted cluster jobs never exceeds --maxjobs")
+	}
+}
+
+//verif:stub runtime/trace.NewTask
+func c12NewTask(pctx context.Context, taskType string) (context.Context, *trace.Task) {
+	return pctx, nil
+}
+
+//verif:stub (*runtime/trace.Task).End
+func c12TaskEnd(t *trace.Task) {}
+
+// H_C12_remoteExec(maxJobs): three jobs are handed to the real execJob one
+// after the other; whenever a job has to wait for a slot, an arbitrary
+// running job ends (the real endJob) — or none does and the wait is cut off.
+func H_C12_remoteExec(maxJobs int) {
+	c12Sent, c12Ended = nil, nil
+	mgr := &RemoteJobManager{maxJobs: maxJobs}
+	if maxJobs > 0 {
+		mgr.jobSem = NewMaxJobsSemaphore(maxJobs)
+	}
+	c12RemMgr = mgr
+	names := []string{"j1", "j2", "j3"}
+	var ms []*Metadata
+	for _, n := range names {
+		ms = append(ms, NewMetadata("ID.ps.P."+n, "/ps/P/"+n))
+	}
+	verifOnCondWait(func() {
+		// a job waits for a slot: some running job finishes now
+		var running []*Metadata
+		for _, m := range c12Sent {
+			ended := false
+			for _, e := range c12Ended {
+				if e == m {
+					ended = true
+				}
+			}
+			if !ended {
+				running = append(running, m)
+			}
+		}
+		verifAssert(len(running) == maxJobs, "C12: a job only waits while every slot is taken")
+		if len(running) == 0 {
+			verifAssume(false)
+		}
+		k := verifInt("which job ends")
+		verifAssume(verifAll(k >= 0, k < len(running)))
+		k = verifConcretize(k)
+		// it reports completion and the runtime releases its slot
+		running[k].contents[CompleteFile] = struct{}{}
+		c12Ended = append(c12Ended, running[k])
+		mgr.endJob(running[k])
+	})
+	res := &JobResources{Threads: 1, MemGB: 1}
+	for i, m := range ms {
+		mgr.execJob("/bin/job", []string{"a"}, map[string]string{}, m, res, names[i], "main", false)
+		n := verifNumSpawned()
+		for g := 0; g < n; g++ {
+			verifRunSpawned(g)
+		}
+	}
+	verifCover("remote jobs submitted")
+	verifAssert(len(c12Sent) == 3, "C12: every submitted job is eventually sent (no stall while jobs finish)")
+	if maxJobs > 0 && len(c12Ended) > 0 {
+		verifCover("remote job waited for a slot")
+	}
 }
